@@ -4,23 +4,36 @@ import os
 
 def run(ctx):
     hb = ctx.build("h-core")
-    quick = ctx.quick
+    q = ctx.quick
     # 1. design level: the reference model satisfies the property on its ghost state
     ctx.mc("MC_Reassembler")
     # 2. spec -> impl: all operation sequences of length Depth over the unit alphabet
-    beh, n = ctx.gen("Gen_Reassembler", "gen_reasm.txt", cfg="Gen_Reassembler.cfg" if quick else "Gen_Reassembler_t.cfg")
-    r = ctx.harness(hb, ["reasm-replay", beh, ctx.tier])
-    ctx.cov["stages"].append({"stage": "replay", "what": "Reassembler", **{k: r[k] for k in ("behaviours", "embeddings", "steps", "mismatches")}})
-    ctx.count(r["steps"])
-    ctx.cov["distinct_nontrivial"] += r["behaviours"]
-    ctx.sample({"generated_behaviour": r["sample"]})
-    os.remove(beh)
-    if r["mismatches"]:
-        rp = ctx.write_replay("reasm-gen", {"what": "Reassembler disagrees with generated behaviour", "first": r["first"]})
-        ctx.violation("Reassembler: %d generated behaviours disagree, e.g. %s" % (r["mismatches"], r["first"][0]["what"]), rp)
-    # 3. impl -> spec: long random histories validated by TLC
+    cfg = ctx.make_cfg("Gen_Reassembler.cfg", "Gen_Reassembler_run.cfg", {"Depth": 3 if q else 4})
+    beh, _ = ctx.gen("Gen_Reassembler", "gen_reasm.txt", cfg=cfg)
+    ctx.replay_stage("Reassembler", ctx.harness(hb, ["reasm-replay", beh, ctx.tier]), beh)
+
+    cfg = ctx.make_cfg("Gen_RangeSet.cfg", "Gen_RangeSet_run.cfg", {"Depth": 3, "MaxV": 5 if q else 6})
+    beh, _ = ctx.gen("Gen_RangeSet", "gen_rangeset.txt", cfg=cfg)
+    ctx.replay_stage("IntervalSet", ctx.harness(hb, ["ranges-replay", "rangeset", beh, 5 if q else 6]), beh)
+
+    for limit in ([2] if q else [1, 2, 3]):
+        cfg = ctx.make_cfg("Gen_AckRanges.cfg", "Gen_AckRanges_run.cfg", {"Depth": 3 if q or limit == 3 else 4, "Limit": limit, "MaxV": 6 if limit < 3 else 8})
+        beh, _ = ctx.gen("Gen_RangeSet", "gen_ackranges.txt", cfg=cfg)
+        ctx.replay_stage("ack::Ranges(limit %d)" % limit, ctx.harness(hb, ["ranges-replay", "ackranges", beh, 6 if limit < 3 else 8, limit]), beh)
+
+    cfg = ctx.make_cfg("Gen_PnMap.cfg", "Gen_PnMap_run.cfg", {"Depth": 3 if q else 4})
+    beh, _ = ctx.gen("Gen_PnMap", "gen_pnmap.txt", cfg=cfg)
+    ctx.replay_stage("packet::number::Map", ctx.harness(hb, ["ranges-replay", "pnmap", beh, 17]), beh)
+
+    cfg = ctx.make_cfg("Gen_SlidingWindow.cfg", "Gen_SlidingWindow_run.cfg", {"Depth": 4 if q else 5})
+    beh, _ = ctx.gen("Gen_SlidingWindow", "gen_window.txt", cfg=cfg)
+    ctx.replay_stage("SlidingWindow", ctx.harness(hb, ["ranges-replay", "window", beh, 400]), beh)
+
+    # 3. impl -> spec: long random histories of the real Reassembler validated by TLC
     tf = os.path.join(ctx.out, "reasm.ndjson")
-    runs, ops = (30, 300) if quick else (400, 400)
-    r = ctx.harness(hb, ["reasm-record", ctx.seed, runs, ops, tf])
+    runs, ops = (30, 300) if q else (300, 400)
+    ctx.harness(hb, ["reasm-record", ctx.seed, runs, ops, tf])
     ctx.trace("Trace_Reassembler", tf, runs=runs, label="reasm")
+    ctx.cov["exhaustive"] = True
     ctx.assume("payload bytes are a fixed function of the stream offset; a chunk is 'the right bytes' iff it equals that function on the offsets the model predicts")
+    ctx.assume("operation sequences are exhaustive up to the stated depth over the unit alphabets; larger values are reached only through the affine embeddings listed in harness/h-core/src/{reasm,ranges}.rs")
